@@ -20,7 +20,7 @@ from engine.evalmini import Interp, Obj, OutOfFragment, NOT_HANDLED
 UNITS = ['cclLang']   # Strings.hpp is header-only; one unit that includes it is enough
 
 RANGE = 'ccl::StrRange'
-WINDOW = range(0, 6)
+WINDOW = range(0, 6)        # quick tier; the thorough tier widens it (see check)
 
 
 def _mk(s, f):
@@ -100,6 +100,9 @@ def _overlaps_oracle(a, b):
 
 
 def check(db, rep):
+    global WINDOW
+    WINDOW = range(0, 9) if rep.tier == 'thorough' else range(0, 6)
+    rep.note('interval_window', [WINDOW.start, WINDOW.stop])
     rep.explanation = ('Interval relations are decided exactly: each method body is summarised from the typed AST and evaluated on every '
                        'order type of the end points (comparison-only code is invariant under order isomorphism, so a window containing all '
                        'weak orderings is complete for all integers); UTF8CharSize is tabulated over its whole 256-value domain; the two '
